@@ -34,7 +34,8 @@ def new_check():
         trusted=["hand-written model lean/find/Model/Find.lean (+ Model/Time.lean calendar) tied to FileSet.find, "
                  "_get_search_dirs, _check_placeholders, _get_matching_files, _check_file, _prepare_find_return, "
                  "is_excluded, __contains__, __len__ by the correspondence run of this check (driver drv_c01: same "
-                 "template, population, query; ordered id lists, bundle boundaries and error class must be equal)",
+                 "template, population, query; error class, unsorted answers as multisets, sorted answers and bundles with ties "
+                 "on (t0,t1) as multisets must be equal; glob / tie order is diagnostic only)",
                  "the harness' tokenizer of the path template (split on '/', {placeholder}, '*') and its rendering of "
                  "file names; name parsing itself (regexes, get_info) is C02's subject: the harness checks on every "
                  "population that get_info() returns the coverage it intended",
